@@ -140,15 +140,18 @@ def generate_triples(rows, values, representative=False, shapemap=False):
             for c in row.classes:
                 triples.append((s, RDF_TYPE, ("iri", EX + c)))
         owned_later = []
-        for j, (p, tgt) in enumerate(row.out):
+        seen = {}
+        for (p, tgt) in row.out:
             kind = tgt[0]
+            j = seen.get((p, tgt), 0)          # index among identical (property, target) entries: independent of the order of row.out
+            seen[(p, tgt)] = j + 1
+            tagj = "%s%s%d" % (p, "".join(str(x) for x in tgt), j)
             if kind == "lit":
                 o = ("lit", DT[tgt[1]], "v%d" % j if tgt[1] != "int" else str(j + 1))
             elif kind == "iri":
-                fresh[0] += 1
-                o = ("iri", "%sv/%s_%d_%d" % (EX, row.rid, i, j))
+                o = ("iri", "%sv/%s_%d_%s" % (EX, row.rid, i, tagj))
             elif kind == "bnode":
-                o = ("bnode", "_:v_%s_%d_%d" % (row.rid, i, j))
+                o = ("bnode", "_:v_%s_%d_%s" % (row.rid, i, tagj))
             elif kind == "pool":
                 o = node_term(byid[tgt[1]], tgt[2] if len(tgt) > 2 else 0)
             elif kind == "own":
@@ -161,8 +164,12 @@ def generate_triples(rows, values, representative=False, shapemap=False):
             else:
                 raise ValueError(tgt)
             triples.append((s, EX + p, o))
-        for j, (p, kind) in enumerate(row.in_fresh):
-            subj = ("iri", "%sw/%s_%d_%d" % (EX, row.rid, i, j)) if kind == "iri" else ("bnode", "_:w_%s_%d_%d" % (row.rid, i, j))
+        seen_in = {}
+        for (p, kind) in row.in_fresh:
+            j = seen_in.get((p, kind), 0)
+            seen_in[(p, kind)] = j + 1
+            tagj = "%s%s%d" % (p, kind, j)
+            subj = ("iri", "%sw/%s_%d_%s" % (EX, row.rid, i, tagj)) if kind == "iri" else ("bnode", "_:w_%s_%d_%s" % (row.rid, i, tagj))
             triples.append((subj, EX + p, s))
         for orow in owned_later:
             emit(orow, i)
